@@ -22,6 +22,26 @@ def load():
     m = importlib.util.module_from_spec(spec); spec.loader.exec_module(m)
     return m.CLAIMED, m.NOT_REACHED, m.HOOK_COMMITS
 
+def technique_of(pid):
+    """Names the deciding method per property from the group registry (classes as in DESIGN.md section 0)."""
+    import importlib, sys, os
+    sys.path.insert(0, os.path.dirname(os.path.dirname(os.path.abspath(__file__))))
+    gs = importlib.import_module('proofs.reg_' + pid).GROUPS
+    def count(tier, cls, dfcc=None):
+        return sum(1 for g in gs if g.get('tier', 'quick') == tier and g['cls'] == cls and (dfcc is None or (g.get('dfcc', True) is not False) == dfcc))
+    parts = []
+    for tier in ('quick', 'thorough'):
+        pe, ph, f, b = count(tier, 'P', True), count(tier, 'P', False), count(tier, 'F'), count(tier, 'B')
+        if pe + ph + f + b == 0:
+            continue
+        parts.append('%s tier: %d group(s) enforce function/loop contracts on the real bodies through goto-instrument --dfcc (unbounded, modular: callees replaced by their contracts), '
+                     '%d loop-free full-domain harness proof(s), %d finite-complete group(s) (every loop unwound to completion, unwinding assertions on), '
+                     '%d bounded stand-in(s) (stated bounds, never counted as proved)' % (tier, pe, ph, f, b))
+    return ('contract-based deductive verification of the real C code with CBMC 6.11.0 (contracts written on declarations, real .c files #included verbatim; SAT back end CaDiCaL); '
+            + '; '.join(parts) + '; the deciding step is cbmc discharging every obligation generated from the current /repo sources; refuted obligations recorded on the unchanged tree are violations, '
+            'with a bounded counterexample search replayed natively (gcc + ASan/UBSan) where the harness allows it')
+
+
 def main():
     claimed, not_reached, hook_commits = load()
     checks = []
@@ -36,7 +56,7 @@ def main():
             'engine': 'cbmc-contracts',
             'level_claimed': {'category': c.get('category', 'proof'), 'text': c['text'], 'design_ref': c.get('design_ref', 'DESIGN.md section 4, ' + pid)},
             'level_note': c['note'],
-            'technique': c.get('technique', 'CBMC code contracts (DFCC) enforced on the real C functions, SAT back end'),
+            'technique': c.get('technique') or technique_of(pid),
         })
     na = []
     for pid in sorted(set(NA_FIXED) | set(not_reached)):
